@@ -183,8 +183,15 @@ pub fn c12_history(cfg: &CardCfg, nops: usize, seed: u64, prop: &str, rep: &mut 
         // stop token that is long, but well inside the driver's own write timeout
         st.card.stop_gap = (seed ^ cfg.seed) % 3 == 0;
         if (seed ^ cfg.seed) % 5 == 0 {
-            st.card.stop_busy = Some(12_000 + (seed ^ cfg.seed) % 9_000);
+            st.card.stop_busy = Some(12_000 + (seed ^ cfg.seed) % 31_000);
         }
+        // ... and the same after a data block (single-block writes, and before the next block or the
+        // stop token of a multiple-block write)
+        if (seed ^ cfg.seed) % 6 == 1 {
+            st.card.prog_busy = Some(11_000 + (seed ^ cfg.seed) % 33_000);
+            st.card.prog_budget = 6;
+        }
+        st.card.ff_trailer = (seed ^ cfg.seed) % 3 != 2;
         st.card.erase_value = if (seed ^ cfg.seed) % 8 < 4 { 0xFF } else { 0x00 };
     }
     let case = |extra: &str| J::obj().set("card", cfg.describe()).set("step", extra);
@@ -827,6 +834,27 @@ fn c13_case(cfg: &CardCfg, op: OpK, fault: &FaultSpec, which_block: u32, label: 
             if o.ok && rig.bus.borrow().spi_failed {
                 rep.violate(v13("C13.ok-spi-error", &call, "transaction error ignored", format!("{:?} returned Ok although SPI transaction #{} of the call failed [{}]", op, t, cfg.describe()), case()));
                 return None;
+            }
+            // a failed initialisation leaves the card marked uninitialised - whichever transaction failed
+            if op == OpK::Init && !o.ok {
+                {
+                    let mut b = rig.bus.borrow_mut();
+                    b.fail_transaction = None;
+                    b.card.heal();
+                }
+                let frames_before = rig.bus.borrow().card.frames.len();
+                let mut one = [Block::new()];
+                let r = rig.call(B_INIT, |sd| sd.read(&mut one, BlockIdx(idx)).map(|_| ()));
+                let first = rig.bus.borrow().card.frames.get(frames_before).map(|f| f.cmd);
+                if first != Some(0) {
+                    rep.violate(v13("C13.left-initialised", &call, "next call does not start with CMD0", format!("after a failed initialisation ({}) the next call started with {:?} instead of CMD0 [{}]", label, first.map(|c| format!("CMD{}", c)), cfg.describe()), case()));
+                    return None;
+                }
+                if !matches!(r, Ok(Ok(()))) || one[0].contents != rig.expected(idx) {
+                    rep.violate(v13("C13.no-recovery", &call, "after failed initialisation", format!("the bus works again but the next read gave {:?} [{}]", r.map(|x| x.map_err(|e| format!("{:?}", e))), cfg.describe()), case()));
+                    return None;
+                }
+                rep.count("recoveries_after_failed_init", 1);
             }
         }
         FaultSpec::R1(c, _, val) => {
